@@ -2,7 +2,7 @@
 import sys, collections
 import hypothesis
 from hypothesis import given, settings, HealthCheck
-from crverif.core import Ctx, Discard, normalise
+from crverif.core import Ctx, Discard, Violation, normalise
 from crverif.props import c10
 n = int(sys.argv[1]) if len(sys.argv) > 1 else 300
 for f in c10.FACETS:
@@ -17,6 +17,8 @@ for f in c10.FACETS:
             f.check(r, ctx)
         except Discard:
             pass
+        except Violation as v:
+            ctx.label('VIOLATION ' + v.kind)
     t()
     print("==", f.name, "cases", ctx.cases, "nontrivial", ctx.nontrivial_cases, "band", ctx.band)
     for k, v in sorted(ctx.classes.items()):
